@@ -16,35 +16,35 @@ Hypothesis Hc : cfg_ok c.
 Lemma cfg3_incsort l b : cfg3 l (set_incsort l b).
 Proof. repeat split. Qed.
 
-Lemma GR_perm v lr l bs flag : get_blist v lr = Some l -> Permutation (bl_blocks l) bs -> GR v (set_blist v lr (set_incsort (set_blocks l bs) flag)).
+Lemma GR_perm v lr l bs flag : get_blist v lr = Some l -> Permutation (bl_blocks l) bs -> GR c v (set_blist v lr (set_incsort (set_blocks l bs) flag)).
 Proof.
-  intros Hg P. apply (GR_sub_blocks v lr l _ Hg); [repeat split|]. intros b Hb. cbn in Hb. eapply Permutation_in; [apply Permutation_sym; exact P|exact Hb].
+  intros Hg P. apply (GR_sub_blocks c v lr l _ Hg); [repeat split|]. intros b Hb. cbn in Hb. eapply Permutation_in; [apply Permutation_sym; exact P|exact Hb].
 Qed.
 
-Lemma prepare_list_G v lr : GR v (prepare_list v lr).
+Lemma prepare_list_G v lr : GR c v (prepare_list v lr).
 Proof. unfold prepare_list. destruct (get_blist v lr) as [l|] eqn:Hg; [|apply GR_refl]. apply (GR_perm v lr l _ false Hg). apply sort_by_free_size_perm. Qed.
 
-Lemma prepare_lists_G lrs : forall v, GR v (fold_left prepare_list lrs v).
+Lemma prepare_lists_G lrs : forall v, GR c v (fold_left prepare_list lrs v).
 Proof. induction lrs as [|lr tl IH]; intros v; cbn [fold_left]; [apply GR_refl|]. eapply GR_trans; [apply prepare_list_G|apply IH]. Qed.
 
-Lemma defrag_begin_G v flags pool mb ma : GR v (fst (defrag_begin c v flags pool mb ma)).
+Lemma defrag_begin_G v flags pool mb ma : GR c v (fst (defrag_begin c v flags pool mb ma)).
 Proof.
   unfold defrag_begin. destruct (_ || _); [apply GR_refl|]. destruct (_ =? 3); [apply GR_refl|].
   destruct (match pool with Some uid => list_is_linear v (LPool uid) | None => false end); [apply GR_refl|].
   destruct (negb _); cbn [fst]; apply prepare_lists_G.
 Qed.
 
-Lemma set_ud_G w lr bid h tag w' : set_block_user_data w lr bid h tag = Some w' -> GR w w'.
+Lemma set_ud_G w lr bid h tag w' : set_block_user_data w lr bid h tag = Some w' -> GR c w w'.
 Proof.
   unfold set_block_user_data. destruct (get_block w lr bid) as [b|] eqn:Hgb; [|discriminate].
   destruct (meta_set_user_data (bk_meta b) h tag) as [mt'|] eqn:E; [|discriminate]. intros H; injection H as <-.
-  destruct (get_block_in _ _ _ _ Hgb) as (l & Hg & _). apply (GR_put_block w lr l _ Hg). intros HV.
+  destruct (get_block_in _ _ _ _ Hgb) as (l & Hg & _). apply (GR_put_block c w lr l _ Hg). intros HV.
   eapply meta_set_ud_ok; eauto. eapply get_block_ok; eauto.
 Qed.
 
 (* swapBlockAllocation between two block Allocations of one list *)
 Lemma swap_G v s t :
-  a_lref (get_alloc v s) = a_lref (get_alloc v t) -> GR v (fst (swap_block_allocation v s t)).
+  a_lref (get_alloc v s) = a_lref (get_alloc v t) -> GR c v (fst (swap_block_allocation v s t)).
 Proof.
   intros El. unfold swap_block_allocation. destruct (negb (a_kind (get_alloc v s) =? 1) || negb (a_kind (get_alloc v t) =? 1)) eqn:Ek; [apply GR_refl|].
   apply orb_false_iff in Ek. destruct Ek as (Ka & Kb). apply negb_false_iff in Ka, Kb. apply Z.eqb_eq in Ka, Kb.
@@ -58,15 +58,15 @@ Proof.
     - rewrite put_block_other in G1 by exact Hne. exists l1. split; [exact G1|apply cfg3_refl]. }
   set (a := get_alloc v s) in *. set (b := get_alloc v t) in *.
   match goal with |- context [set_alloc (set_alloc v1 s ?a') t ?b'] =>
-    assert (H2 : GR v (set_alloc (set_alloc v1 s a') t b')) end.
+    assert (H2 : GR c v (set_alloc (set_alloc v1 s a') t b')) end.
   { intros HV. pose proof (H1 HV) as V1.
     (* what GV says about a and b in v, carried to v1 *)
     assert (Pa : a_allocated a = true -> GranInv.kind_ok (a_sub a) /\ forall l1, get_blist v1 (a_lref a) = Some l1 -> bl_algo l1 = 0 -> rnd_ok (bl_gran l1) (a_sub a) (a_size a)).
-    { intros Hal. destruct (gv_allocs _ HV s a (get_alloc_allocated v s Hal) Ka) as (X1 & X2). split; [exact X1|].
-      intros l1 G1 A1. destruct (Hl1 _ _ G1) as (l & G0 & (_ & Eg & Ea)). rewrite Eg. apply X2; [exact G0|congruence]. }
+    { intros Hal. destruct (gv_allocs _ _ HV s a (get_alloc_allocated v s Hal) Ka) as (X1 & X2). split; [exact X1|].
+      intros l1 G1 A1. destruct (Hl1 _ _ G1) as (l & G0 & (_ & Eg & Ea & _)). rewrite Eg. apply X2; [exact G0|congruence]. }
     assert (Pb : a_allocated b = true -> GranInv.kind_ok (a_sub b) /\ forall l1, get_blist v1 (a_lref b) = Some l1 -> bl_algo l1 = 0 -> rnd_ok (bl_gran l1) (a_sub b) (a_size b)).
-    { intros Hal. destruct (gv_allocs _ HV t b (get_alloc_allocated v t Hal) Kb) as (X1 & X2). split; [exact X1|].
-      intros l1 G1 A1. destruct (Hl1 _ _ G1) as (l & G0 & (_ & Eg & Ea)). rewrite Eg. apply X2; [exact G0|congruence]. }
+    { intros Hal. destruct (gv_allocs _ _ HV t b (get_alloc_allocated v t Hal) Kb) as (X1 & X2). split; [exact X1|].
+      intros l1 G1 A1. destruct (Hl1 _ _ G1) as (l & G0 & (_ & Eg & Ea & _)). rewrite Eg. apply X2; [exact G0|congruence]. }
     apply GR_set_alloc; [|apply GR_set_alloc; [|exact V1]].
     - intros _ Hal _. cbn [a_allocated a_sub a_size a_lref] in *. destruct (Pb Hal) as (X1 & X2). split; [exact X1|].
       intros l1 G1 A1. rewrite get_blist_set_alloc in G1. rewrite <- El in X2. apply X2; auto.
@@ -76,24 +76,24 @@ Proof.
   eapply GR_trans; [exact H2|apply (set_ud_G _ _ _ _ _ _ E3)].
 Qed.
 
-Lemma free_or_panic_G v s : GR v (fst (free_or_panic c v s)).
+Lemma free_or_panic_G v s : GR c v (fst (free_or_panic c v s)).
 Proof.
   unfold free_or_panic. destruct (negb _); [apply GR_refl|]. destruct (negb _); [apply GR_refl|].
   pose proof (bl_free_G c v (a_lref (get_alloc v s)) s false) as H. destruct (bl_free c v _ s false) as (v1 & r). cbn [fst] in H.
   destruct r as [[]|code| |]; cbn [fst]; try exact H. eapply GR_trans; [exact H|apply GR_unallocate].
 Qed.
 
-Lemma complete_move_G v lr mv d : mv_ok v lr mv -> GR v (fst (complete_move c v mv d)).
+Lemma complete_move_G v lr mv d : mv_ok v lr mv -> GR c v (fst (complete_move c v mv d)).
 Proof.
   intros (a & b & Sa & Sb & Ka & Kb & La & Lb & _). unfold complete_move. fold (src_of mv). fold (tmp_of mv).
-  match goal with |- context [let '(v1, r1) := ?e in _] => assert (H1 : GR v (fst e)); [|destruct e as (v1 & r1)] end.
+  match goal with |- context [let '(v1, r1) := ?e in _] => assert (H1 : GR c v (fst e)); [|destruct e as (v1 & r1)] end.
   { destruct (d =? 0); [|destruct (d =? 2); [apply free_or_panic_G|apply GR_refl]].
     apply swap_G. rewrite (get_alloc_slot _ _ _ Sa), (get_alloc_slot _ _ _ Sb). congruence. }
   cbn [fst] in H1. destruct r1 as [[]|code| |]; cbn [fst]; try exact H1. eapply GR_trans; [exact H1|apply free_or_panic_G].
 Qed.
 
 Lemma complete_moves_G mvs : forall v lr p imm ds,
-  VamInv c v -> moves_ok v lr mvs -> GR v (fst (fst (fst (complete_moves c v lr p imm mvs ds)))).
+  VamInv c v -> moves_ok v lr mvs -> GR c v (fst (fst (fst (complete_moves c v lr p imm mvs ds)))).
 Proof.
   induction mvs as [|mv rest IH]; intros v lr p imm ds HI (Hnd & Hf); cbn [complete_moves]; [apply GR_refl|].
   destruct (list_alloc_stats v lr) as (pc & pb).
@@ -110,7 +110,7 @@ Proof.
 Qed.
 
 Lemma complete_pass_G v dc p ds :
-  VamInv c v -> moves_ok v (dc_lr dc) (Defrag.c_moves (dc_ctx dc)) -> GR v (fst (fst (fst (complete_pass c v dc p ds)))).
+  VamInv c v -> moves_ok v (dc_lr dc) (Defrag.c_moves (dc_ctx dc)) -> GR c v (fst (fst (fst (complete_pass c v dc p ds)))).
 Proof.
   intros HI Hok. unfold complete_pass.
   pose proof (complete_moves_G (Defrag.c_moves (dc_ctx dc)) v (dc_lr dc) p [] ds HI Hok) as H.
@@ -118,11 +118,11 @@ Proof.
   destruct r as [[]|code| |]; cbn [fst]; try exact H. destruct (get_blist v1 (dc_lr dc)) as [l|] eqn:Hg; cbn [fst]; [|exact H].
   pose proof (swap_immovable_fold imm (bl_blocks l) (Defrag.c_immovable (dc_ctx dc))) as Pm.
   destruct (fold_left _ imm (bl_blocks l, Defrag.c_immovable (dc_ctx dc))) as (bs & immc). cbn [fst] in *.
-  eapply GR_trans; [exact H|]. apply (GR_sub_blocks v1 (dc_lr dc) l _ Hg); [apply cfg3_set_blocks|]. intros b Hb. cbn in Hb.
+  eapply GR_trans; [exact H|]. apply (GR_sub_blocks c v1 (dc_lr dc) l _ Hg); [apply cfg3_set_blocks|]. intros b Hb. cbn in Hb.
   eapply Permutation_in; [exact Pm|exact Hb].
 Qed.
 
-Lemma defrag_end_G v run ds : VamInv c v -> run_ok v run -> GR v (fst (fst (defrag_end c v run ds))).
+Lemma defrag_end_G v run ds : VamInv c v -> run_ok v run -> GR c v (fst (fst (defrag_end c v run ds))).
 Proof.
   intros HI (_ & _ & Hr). unfold defrag_end. destruct (nth_z (dr_ctxs run) (dr_progress run)) as [dc|] eqn:En; [|apply GR_refl].
   destruct (Defrag.c_moves (dc_ctx dc)) as [|m0 ms0] eqn:Em; [apply GR_refl|].
@@ -132,11 +132,11 @@ Proof.
   destruct r as [[]|code| |]; exact H.
 Qed.
 
-Lemma defrag_finish_G v run : GR v (fst (defrag_finish v run)).
+Lemma defrag_finish_G v run : GR c v (fst (defrag_finish v run)).
 Proof.
   unfold defrag_finish. cbn [fst]. generalize (dr_ctxs run). intros ctxs. revert v. induction ctxs as [|dc tl IH]; intros v; cbn [fold_left]; [apply GR_refl|].
   eapply GR_trans; [|apply IH]. destruct (get_blist v (dc_lr dc)) as [l|] eqn:Hg; [|apply GR_refl].
-  apply (GR_sub_blocks v (dc_lr dc) l _ Hg); [apply cfg3_incsort|]. intros b Hb. exact Hb.
+  apply (GR_sub_blocks c v (dc_lr dc) l _ Hg); [apply cfg3_incsort|]. intros b Hb. exact Hb.
 Qed.
 
 End Dfr.
